@@ -1,3 +1,78 @@
-From PV Require Import Queue.Model.
-Theorem placeholder : True. Proof. exact I. Qed.
-Print Assumptions placeholder.
+(* C04 - Pause/resume conserves trials and reports every cancellation exactly once.
+   Property theorems only; every proof is `exact <lemma of Queue/ProofsC04.v>`. *)
+From PV Require Import Queue.Model Queue.Spec Queue.ProofsC04.
+
+(* What one pause(t) does, for t not after the clock: exactly the logged (= live) trials ending after t are
+   notified as removed, newest first, each once; they leave the log; each gives one trial back to its stimulus;
+   nothing is pending afterwards and the clock is t. *)
+Theorem C04_pause_exact : forall q t q' ev err,
+  0 <= t <= q_samples q -> pause all_rep q (Some t) = (q', ev, err) ->
+  err = false /\
+  ev = map (fun i => ERemoved (i_key i) (i_t0 i)) (filter (fun i => ends_after i t) (rev (q_generated q))) /\
+  q_generated q' = filter (fun i => negb (ends_after i t)) (q_generated q) /\
+  q_samples q' = t /\ q_paused q' = true /\ q_source q' = None /\ q_delay q' = 0 /\
+  (forall k, trials_of (q_data q') k =
+             trials_of (q_data q) k +
+             countZ k (map i_key (filter i_dec (filter (fun i => ends_after i t) (q_generated q))))).
+Proof. exact pause_exact. Qed.
+Print Assumptions C04_pause_exact.
+
+(* Over EVERY finite history of requests, pauses (t not after the clock) and resumes: the log holds exactly the
+   non-cancelled trials -- per (stimulus, start) the number of live entries is #added - #removed (so nothing is
+   removed that is not live, and nothing twice) -- and every stimulus satisfies
+   remaining trials + non-cancelled presentations = requested. *)
+Theorem C04_conservation : forall p es ch pm ops q ev,
+  wf_queue p es = true -> wf_hist all_rep (qinit p es ch pm) ops = true ->
+  run_hist all_rep (qinit p es ch pm) ops = Some (q, ev) ->
+  (forall k t0, zlen (filter (eqb_pairZ (k, t0)) (live_of q)) =
+                zlen (filter (eqb_pairZ (k, t0)) (added_of ev)) - zlen (filter (eqb_pairZ (k, t0)) (removed_of ev))) /\
+  (forall k e, znth es k = Some e -> trials_of (q_data q) k + net_presented k ev = e_requested e).
+Proof. exact conservation. Qed.
+Print Assumptions C04_conservation.
+
+(* When the queue finally reports empty, none lost, none duplicated: exactly the requested number of
+   non-cancelled presentations (at least that many for the keep-completed policies). *)
+Theorem C04_at_empty : forall p es ch pm ops q ev,
+  wf_queue p es = true -> wf_hist all_rep (qinit p es ch pm) ops = true ->
+  run_hist all_rep (qinit p es ch pm) ops = Some (q, ev) -> q_empty q = true ->
+  forall k e, znth es k = Some e ->
+    if exact_policy p then net_presented k ev = e_requested e else e_requested e <= net_presented k ev.
+Proof. exact at_empty. Qed.
+Print Assumptions C04_at_empty.
+
+(* while paused: zeros, no trial starts *)
+Theorem C04_paused_silent : forall q n, q_paused q = true -> 0 <= n ->
+  exists q', pop_buffer all_rep q n = Some (q', repeat OZero (Z.to_nat n), []) /\
+             q_generated q' = q_generated q /\ q_data q' = q_data q /\ q_paused q' = true.
+Proof. exact paused_silent. Qed.
+Print Assumptions C04_paused_silent.
+
+(* after pause(t); resume(t2) the first new trial starts exactly at t2 *)
+Theorem C04_resume_start : forall q t t2 q1 ev1 n q3 out ev,
+  0 <= t <= q_samples q -> 0 <= t2 -> 0 <= n ->
+  pause all_rep q (Some t) = (q1, ev1, false) ->
+  pop_buffer all_rep (resume q1 (Some t2)) n = Some (q3, out, ev) ->
+  match added_of ev with (_, t0) :: _ => t0 = t2 | [] => True end.
+Proof. exact resume_start. Qed.
+Print Assumptions C04_resume_start.
+
+(* a pause time later than the queue clock is rejected (ValueError) *)
+Theorem C04_future_pause_rejected : forall q t q' ev err,
+  q_samples q < t -> pause all_rep q (Some t) = (q', ev, err) -> err = true.
+Proof. exact future_pause_rejected. Qed.
+Print Assumptions C04_future_pause_rejected.
+
+(* the code before the repairs recorded in known_findings.txt lost or duplicated trials *)
+Theorem C04_unrepaired_refuted : exists p es ops q ev k e,
+  wf_queue p es = true /\ wf_hist no_rep (qinit p es [] []) ops = true /\
+  run_hist no_rep (qinit p es [] []) ops = Some (q, ev) /\ q_empty q = true /\ exact_policy p = true /\
+  znth es k = Some e /\ net_presented k ev <> e_requested e.
+Proof. exact unrepaired_refuted. Qed.
+Print Assumptions C04_unrepaired_refuted.
+
+Example C04_ex :
+  let es := [mk_entry 2 3 KArray [2] true; mk_entry 1 2 KGen [1] true] in
+  let ops := [Pop 7; Pause (Some 4); Pop 3; Resume (Some 6); Pop 9; Pause (Some 8); Resume (Some 8); Pop 60] in
+  wf_queue PFifo es = true /\ wf_hist all_rep (qinit PFifo es [] []) ops = true /\
+  conservation_test PFifo es [] [] ops = true.
+Proof. vm_compute. repeat split; reflexivity. Qed.
